@@ -228,7 +228,7 @@ func (c *Ctx) callPath(cc *ssa.CallCommon, env Env, d int) string {
 		args = append(args, c.path(a, env, d+1))
 	}
 	if cc.IsInvoke() {
-		return fmt.Sprintf("invoke<%s>.%s(%s)", typeShort(cc.Value.Type()), cc.Method.Name(), strings.Join(args, ","))
+		return fmt.Sprintf("invoke<%s>.%s[%s](%s)", typeShort(cc.Value.Type()), cc.Method.Name(), c.path(cc.Value, env, d+1), strings.Join(args, ","))
 	}
 	if f := cc.StaticCallee(); f != nil {
 		return short(f.String()) + "(" + strings.Join(args, ",") + ")"
